@@ -52,7 +52,7 @@ CHECKS["C12"] = dict(category="proof",
    note="Trusted: Lean kernel (+propext, Classical.choice, Quot.sound); the translator's syntactic shape detection (fails closed); the 4 hand-reviewed sites pinned by statement hash; library code called by the generator (kin-openapi, text/template, x/tools/imports, encoding/json) assumed order-insensitive and sampled by the repeated-run search; TEMPLATE_DEBUG unset.",
    technique="regenerated Lean obligation over a source-extracted site table + permutation-invariance lemmas; repeated-run hash comparison as failing-input search")
 CHECKS["C19"] = dict(category="proof",
-   text="Lean theorem Goag.Dir.history_last_wins: for histories of ANY length and any initial directory, the goag-owned files after the history equal what the last invocation alone produces in an empty directory, and foreign files are untouched (plus rerun_idempotent). The step model stepDir (write/remove per owned file, O_TRUNC) is validated EXHAUSTIVELY on every run: all 2^5 stale-file patterns x user file x 8 invocations (512 single steps) against the real generator, plus all 584 histories of length <= 3 and random longer ones, with a stale marker longer than any generated file and a user file that imports same-named non-stdlib packages.",
+   text="Lean theorem Goag.Dir.history_last_wins: for histories of ANY length and any initial directory, the goag-owned files after the history equal what the last invocation alone produces in an empty directory, and foreign files are untouched (plus rerun_idempotent). The step model stepDir (write/remove per owned file, O_TRUNC) is validated EXHAUSTIVELY on every run: all 2^5 stale-file patterns x user file x 24 invocations (spec with / without components / without operations x donotedit x client x api-handler: 1536 single steps) against the real generator, plus all 600 histories of length <= 2, sampled histories of length 3 and random longer ones run in one process while each single-run reference is generated in a fresh process, with a stale marker longer than any generated file and a user file that imports same-named non-stdlib packages.",
    design_ref="DESIGN.md §4.19",
    note="Trusted: Lean kernel (+propext, Classical.choice, Quot.sound); hand-written stepDir tied exhaustively on single steps; sha256 equality with a fresh-directory run as the meaning of 'what a single run produces'; the filesystem; runs that return success.",
    technique="Lean 4 proof over an exhaustively validated one-step model of Generate's file logic")
